@@ -145,3 +145,20 @@ def write_table_unit(L, path):
         for w in L["words"]:
             f.write("    %s,\n" % esc(w))
         f.write("  }\n};\n")
+
+
+def write_flags_unit(langs, path):
+    """all registered language objects with their real names, separators and flags but
+    without the word lists (for harnesses that replace the word lookup by an oracle)"""
+    def esc(b):
+        return '"' + "".join("\\x%02x" % c for c in b) + '"'
+    with open(path, "w") as f:
+        f.write("/* generated from a gcc build of /repo/src/lang_*.c: real flags, no words */\n")
+        f.write('#include "lang.h"\n')
+        for L in langs:
+            if L["id"] is None:
+                continue
+            f.write("POLYSEED_PRIVATE const polyseed_lang %s = { .name = %s, .name_en = %s, .separator = %s,\n" % (
+                SYM[L["id"]], esc(L["name"]), esc(L["name_en"]), esc(L["separator"])))
+            f.write("  .is_sorted = %d, .has_prefix = %d, .has_accents = %d, .compose = %d };\n" % (
+                L["is_sorted"], L["has_prefix"], L["has_accents"], L["compose"]))
